@@ -32,7 +32,7 @@ SIMPLE_NARY = {
     'Add', 'Sub', 'Mul', 'Div', 'Fma', 'Neg', 'Abs', 'Sqrt', 'Cbrt', 'Copysign', 'Fdim', 'Hypot', 'Mod', 'Fmod',
     'Remainder', 'Pow', 'Ceil', 'Floor', 'Trunc', 'RoundInt', 'NearbyInt', 'Round', 'Cast', 'RoundAt', 'Max', 'Min',
     'Sum', 'IsNan', 'IsInf', 'IsFinite', 'Signbit', 'Not', 'And', 'Or', 'Len', 'Range1', 'Range2', 'Range3', 'Zip',
-    'Enumerate', 'AnyOf', 'AllOf', 'Fst', 'Snd', 'ConstNan', 'ConstInf', 'Empty',
+    'Enumerate', 'AnyOf', 'AllOf', 'Fst', 'Snd', 'ConstNan', 'ConstInf', 'Empty', 'Logb',
 }
 
 
